@@ -27,11 +27,11 @@ for e in known:
 def sh(c): return subprocess.run(c, shell=True, capture_output=True, text=True).stdout.strip()
 repo_log = "\n".join(l for l in sh("git -C /repo log --format='%h %s' | head -40").splitlines() if " fix:" in l or " verif:" in l)
 
-SPEC = {"C01": "Ops.tla, Decls.tla, Lits.tla, StmtRules.tla", "C02": "Ops.tla, Decls.tla, Lits.tla, StmtRules.tla, Flow.tla, Headers.tla", "C03": "Ops.tla, Decls.tla, Lits.tla, Select.tla", "C04": "Ops.tla, Decls.tla",
+SPEC = {"C01": "Ops.tla, Decls.tla, Lits.tla, StmtRules.tla, Builtins.tla", "C02": "Ops.tla, Decls.tla, Lits.tla, StmtRules.tla, Builtins.tla, Flow.tla, Headers.tla", "C03": "Ops.tla, Decls.tla, Lits.tla, Builtins.tla, Select.tla", "C04": "Ops.tla, Decls.tla, Builtins.tla",
         "C05": "GoTypes.tla, Grid.tla", "C06": "Overload.tla", "C07": "Infer.tla", "C08": "Select.tla", "C09": "Imports.tla", "C10": "Flow.tla",
         "C11": "Lower.tla", "C12": "Print.tla, Comments.tla, Flow.tla, Headers.tla", "C13": "TypeSyntax.tla (GoTypes.tla)", "C14": "Zero.tla (GoTypes.tla)",
-        "C15": "Determinism.tla", "C16": "Builder.tla, Blocks.tla, BlockTrace.tla", "C17": "Total.tla", "C18": "Shared.tla", "C19": "TypeMap.tla, TypeMapTrace.tla", "C20": "Cache.tla"}
-DRIVER = {"C01": "c01_04.go, expr.go, decls.go, lits.go, stmtrules.go", "C02": "c01_04.go, c02_flow.go, c02_headers.go, astcanon.go", "C03": "c01_04.go, c08.go", "C04": "c01_04.go",
+        "C15": "Determinism.tla", "C16": "Builder.tla, Blocks.tla, BlockTrace.tla", "C17": "Total.tla, Builtins.tla", "C18": "Shared.tla", "C19": "TypeMap.tla, TypeMapTrace.tla", "C20": "Cache.tla"}
+DRIVER = {"C01": "c01_04.go, expr.go, decls.go, lits.go, stmtrules.go, builtins.go", "C02": "c01_04.go, c02_flow.go, c02_headers.go, astcanon.go", "C03": "c01_04.go, c08.go", "C04": "c01_04.go",
           "C05": "c05.go, gotypes.go", "C06": "c06.go", "C07": "c07.go", "C08": "c08.go", "C09": "c09.go", "C10": "c10.go", "C11": "c11.go, c11_exec.go",
           "C12": "c12.go, c12_comments.go", "C13": "c13.go", "C14": "c14.go", "C15": "c15.go", "C16": "c16.go, c16_trace.go", "C17": "c17.go", "C18": "c18.go",
           "C19": "c19.go", "C20": "c20.go, cmd/stubgo/stubgo.c"}
